@@ -15,6 +15,9 @@ TARGETED = {
  "C01_r4": ["C01"], "C02_r4": ["C02"], "C03_r4": ["C03"], "C04_r4": ["C04"], "C05_r4": ["C05"], "C06_r4": ["C06"], "C07_r4": ["C07"],
  "C08_r4": ["C08", "C14"], "C09_r4": ["C09"], "C10_r4": ["C10"], "C11_r4": ["C11"], "C12_r4": ["C12", "C16"], "C13_r4": ["C13"], "C14_r4": ["C14"],
  "C15_r4": ["C15"], "C16_r4": ["C16"], "C17_r4": ["C17"], "C18_r4": ["C18"], "C19_r4": ["C19"], "C20_r4": ["C20"],
+ "C01_r5": ["C01"], "C02_r5": ["C02"], "C03_r5": ["C03"], "C04_r5": ["C04", "C05"], "C05_r5": ["C05"], "C06_r5": ["C06"], "C07_r5": ["C07"],
+ "C08_r5": ["C08"], "C09_r5": ["C09"], "C10_r5": ["C10"], "C11_r5": ["C11"], "C12_r5": ["C12", "C16"], "C13_r5": ["C13"], "C14_r5": ["C14"],
+ "C15_r5": ["C15"], "C16_r5": ["C16"], "C17_r5": ["C17"], "C18_r5": ["C18"], "C19_r5": ["C19"], "C20_r5": ["C20"],
 }
 STRENGTHENED = {
  "C02": "names with escaped braces added to the C02 / C03 / C17 corpora (first run: missed by C02 and C03)",
@@ -46,6 +49,19 @@ STRENGTHENED = {
  "C16_r4": "variants named Ok / Err / Some / None glob-imported at the definition site (prelude-shadow twins) added to C16 — this exposed the genuine defect F10 of the unchanged tree",
  "C19_r4": "a fourth build configuration: crate = \"<one identifier>\" naming a local alias or a local re-exporting module (first run: missed)",
  "C20_r4": "bracket / placeholder errors inside long non-ASCII literals at every byte alignment added to C20 (first run: missed)",
+ "C03_r5": "literals WRITTEN with \\u{..} escapes or as raw strings (source length order different from value length order) added to C03 and, at random, to every string corpus (first run: missed)",
+ "C04_r5": "clones taken after items were yielded from both ends, consumed through collect / fold / rev / count / last, added to C04 (first run: caught only by C05)",
+ "C05_r5": "count / last / collect / fold / rev().collect / rfold on a CLONE of the iterator after every state of the cover and in the random histories (methods a generator may override) added to C05 (first run: missed)",
+ "C07_r5": "a prefix on every other enum of C07's derive level (first run: missed)",
+ "C08_r5": "prefixes containing braces added to C08 (VariantNames takes them verbatim) (first run: missed)",
+ "C10_r5": "an enabled and a DISABLED variant with the same snake name added to C10 (first run: missed)",
+ "C11_r5": "an enum-level prefix next to a default variant added to C11 (first run: missed)",
+ "C12_r5": "`V()` / `V {}` shapes in the phf overlap families of C12 and C16 (first run: missed by C12, caught by C16 after the shapes were added)",
+ "C13_r5": "a tuple variant next to a non-tuple variant named <it>Ref / <it>Mut added to C13 (first run: missed)",
+ "C14_r5": "an enum-level prefix on a third of C14's enums (get_serializations never carries it) (first run: missed)",
+ "C15_r5": "every getter of EnumProperty and EnumMessage is also called through &&E, &mut E and Box<E>, and the answers must agree (first run: missed)",
+ "C18_r5": "an enum-level prefix next to a custom parse error, and inputs that start with the prefix, added to C18 (first run: missed)",
+ "C19_r5": "EnumDiscriminants with only NON-strum derives requested, under every crate-path configuration, added to C19 (first run: missed)",
 }
 matrix = {}
 mp = os.path.join(V, "matrix.tsv")
@@ -61,7 +77,7 @@ for name in sorted(os.listdir(V)):
     ver = open(os.path.join(d, ".verify")).read().split() if os.path.exists(os.path.join(d, ".verify")) else ["?", "?", "?"]
     notes = open(os.path.join(d, "notes.md")).read() if os.path.exists(os.path.join(d, "notes.md")) else ""
     meta = {
-        "property": name.split("_")[0], "round": 4 if name.endswith("_r4") else (3 if name.endswith("_r3") else (2 if name.endswith("_r2") else 1)),
+        "property": name.split("_")[0], "round": 5 if name.endswith("_r5") else 4 if name.endswith("_r4") else (3 if name.endswith("_r3") else (2 if name.endswith("_r2") else 1)),
         "what_it_needs_to_manifest": notes[:2500],
         "confirmed_on_current_HEAD": {"demo_without_change_rc": ver[0], "existing_suite_with_change_rc": ver[1], "demo_with_change_rc": ver[2],
                                       "how": "tools/seed_verify_all.sh (scratch worktree of /repo HEAD; cargo test -p strum_tests --offline --test seeded_demo before / after "
